@@ -38,6 +38,15 @@ func valueEqual(a, b dnum) bool {
 	return x.Cmp(y) == 0
 }
 
+// the render size the engine charges a number (excellent/types/base.go): 1 + BitLen(coefficient)/3 + |exponent|
+func numRenderSize(d dnum) int {
+	e := d.E
+	if e < 0 {
+		e = -e
+	}
+	return 1 + d.M.BitLen()/3 + e
+}
+
 func optDec(d *dnum) string {
 	if d == nil {
 		return "None"
@@ -100,6 +109,9 @@ var numCorpus = []dnum{
 	{big.NewInt(-1), 40}, {big.NewInt(123000), -3}, {big.NewInt(100), -2}, {big.NewInt(1), -1},
 	{big.NewInt(10), -1}, {big.NewInt(15), -1}, {big.NewInt(-1), -40}, {big.NewInt(1000000), -6},
 	{big.NewInt(999999), 0}, {big.NewInt(1000000), 0}, {big.NewInt(-10), 0}, {big.NewInt(7), 1},
+	// at and beyond the render size limit (types.MaxRenderSize = 10^6)
+	{big.NewInt(1), -999999}, {big.NewInt(1), -1000000}, {big.NewInt(1), -1000001}, {big.NewInt(-7), -1000005}, {big.NewInt(1), 999999}, {big.NewInt(1), 1000000},
+	{big.NewInt(12345678), -999997}, {big.NewInt(12345678), -999990},
 }
 
 var numTexts = []string{
@@ -191,7 +203,24 @@ func runNumbers(o *hx.Opts, res *hx.Result, r *hx.Rand) {
 			d = genDecimal(gr)
 		}
 		x := types.NewXNumber(decimal.NewFromBigInt(d.M, int32(d.E)))
-		txt, _ := types.ToXText(env, x)
+		txt, terr := types.ToXText(env, x)
+		if terr != nil {
+			// ToXText refuses values above the render size limit: an error value instead of the text
+			res.OracleChecks++
+			res.Eval("num:"+d.String(), true)
+			class := "number-text-not-rendered"
+			if numRenderSize(d) > types.MaxRenderSize {
+				class = "number-text:value-over-render-size"
+			}
+			res.Fail(class, d.String(), fmt.Sprintf("ToXText of a number of render size %d: %s", numRenderSize(d), terr.Error()))
+			w.add(fmt.Sprintf("KNumTextErr %s %s", bigZ(d.M), hx.Z(int64(d.E))), map[string]any{"kind": "number", "decimal": d.String()}, "error")
+			if _, isErr := operators.Equal(env, x, x).(*types.XError); isErr {
+				w.add(fmt.Sprintf("KNumEqErr %s %s %s %s", bigZ(d.M), hx.Z(int64(d.E)), bigZ(d.M), hx.Z(int64(d.E))), map[string]any{"kind": "equal", "a": d.String(), "b": d.String()}, "error")
+			} else {
+				res.Fail("equal-vs-rendering:number", d.String()+" = itself", "ToXText is an error value but = is not")
+			}
+			continue
+		}
 		back, xerr := types.ToXNumber(env, txt)
 
 		res.Eval("num:"+d.String(), numNontrivial(d))
@@ -204,7 +233,7 @@ func runNumbers(o *hx.Opts, res *hx.Result, r *hx.Rand) {
 			res.Dist("num:exp<0,0.xxx")
 		}
 		if i%977 == 3 {
-			res.Sample(map[string]any{"decimal": d.String(), "text": txt.Native()})
+			res.Sample(map[string]any{"decimal": d.String(), "text": fmt.Sprintf("%.80s", txt.Native())})
 		}
 
 		// direct oracle: "every number renders to text that converts back to the same number"
@@ -228,11 +257,14 @@ func runNumbers(o *hx.Opts, res *hx.Result, r *hx.Rand) {
 				res.Fail("number-field-roundtrip", d.String(), fmt.Sprintf("FieldValues.Parse(%q).Number = %s", txt.Native(), fd.String()))
 			}
 		}
-		w.add(fmt.Sprintf("KNum %s %s %s %s", bigZ(d.M), hx.Z(int64(d.E)), hx.Str(txt.Native()), optDec(bd)),
-			map[string]any{"kind": "number", "decimal": d.String()}, map[string]any{"text": txt.Native(), "back": fmt.Sprint(bd)})
+		huge := len(txt.Native()) > 5000 // the direct oracle only: a text of a million characters is too much for a cases file
+		if !huge {
+			w.add(fmt.Sprintf("KNum %s %s %s %s", bigZ(d.M), hx.Z(int64(d.E)), hx.Str(txt.Native()), optDec(bd)),
+				map[string]any{"kind": "number", "decimal": d.String()}, map[string]any{"text": txt.Native(), "back": fmt.Sprint(bd)})
+		}
 
 		// "=" with a text operand: the text is compared as written
-		if i%3 == 0 {
+		if i%3 == 0 && !huge {
 			var s2 string
 			switch gr.Intn(4) {
 			case 0:
@@ -261,7 +293,7 @@ func runNumbers(o *hx.Opts, res *hx.Result, r *hx.Rand) {
 		}
 
 		// "=": against the renderings and against numeric equality
-		if i%2 == 0 {
+		if i%2 == 0 && !huge {
 			var b dnum
 			switch gr.Intn(4) {
 			case 0, 1: // same value, other scale
@@ -322,6 +354,9 @@ func runNumbers(o *hx.Opts, res *hx.Result, r *hx.Rand) {
 		res.Eval("numtext:"+s, true)
 		w.add(fmt.Sprintf("KNumParse %s %s", hx.Str(s), optDec(bd)), map[string]any{"kind": "number-text", "text": s}, fmt.Sprint(bd))
 	}
+
+	// the limit itself, as the code has it now
+	w.add(fmt.Sprintf("KRenderLimit %s", hx.Z(int64(types.MaxRenderSize))), map[string]any{"kind": "render-limit"}, types.MaxRenderSize)
 
 	// number literals with exponent notation: decimal.NewFromString directly (what parse_json uses)
 	lr := r.Fork("literals")
